@@ -14,7 +14,7 @@ func GenAspProgram(t *rapid.T, o AspOpts) AspProgram {
 	for i, n := 0, g.n(2, 4, "nseed"); i < n; i++ {
 		g.assignNew(0, g.anyType(), 1)
 	}
-	for i, n := 0, g.n(2, o.MaxStmts, "nstmts"); i < n; i++ {
+	for i, n := 0, g.n(2, g.o.MaxStmts, "nstmts"); i < n; i++ {
 		g.stmt(0)
 	}
 	return g.finish()
